@@ -352,9 +352,16 @@ func main() {
 	out := vlib.NewOut(a, "From V Require Import Corr.Run_C20.", "c20case", 1000)
 	rng := vlib.NewRand(a.Seed)
 
+	stuck := 0
 	runCase := func(c *Case, tag string) {
+		if stuck >= 3 {
+			return // every further case would wait for the deadline again
+		}
 		c.Kind = "reload"
 		execute(c)
+		if c.Stuck {
+			stuck++
+		}
 		schedule(c)
 		checkOracle(out, c)
 		reloads, busy := 0, false
